@@ -368,6 +368,75 @@ def do_replay(pid, path):
     return 0
 
 
+# ----------------------------------------------------------------- pinned regressions
+def _regress_child(pid, paths, conn):
+    out = []
+    try:
+        prop = engine.get_property(pid)
+        for path in paths:
+            with open(path) as f:
+                body = json.load(f)
+            signal.signal(signal.SIGALRM, _alarm)
+            signal.setitimer(signal.ITIMER_REAL, 120)
+            try:
+                res = engine.run_replay(
+                    prop, body["config"], body["ops"], body.get("run_seed", 0)
+                )
+                v = res.violation
+            except Watchdog:
+                v = {"kind": f"{pid}/nontermination", "detail": None, "step": -1}
+            finally:
+                signal.setitimer(signal.ITIMER_REAL, 0)
+            out.append({"path": path, "violation": v, "steps": len(body["ops"])})
+        conn.send_bytes(json.dumps({"results": out}).encode())
+    except BaseException as exc:  # pylint: disable=broad-except
+        conn.send_bytes(
+            json.dumps(
+                {
+                    "error": "".join(
+                        traceback.format_exception(type(exc), exc, exc.__traceback__)
+                    )
+                }
+            ).encode()
+        )
+    finally:
+        try:
+            from egsim import restart
+
+            restart.shutdown_zygote()
+        except Exception:  # pylint: disable=broad-except
+            pass
+        conn.close()
+
+
+def run_regressions(pid):
+    """
+    Replays of every minimised history that once exposed a (since repaired)
+    defect: they must not reproduce.  -> (results, error)
+    """
+    d = os.path.join(VERIF, "regress", pid)
+    if not os.path.isdir(d):
+        return [], None
+    paths = sorted(
+        os.path.join(d, f) for f in os.listdir(d) if f.endswith(".json")
+    )
+    if not paths:
+        return [], None
+    parent, child = MP.Pipe(duplex=False)
+    p = MP.Process(target=_regress_child, args=(pid, paths, child))
+    p.start()
+    child.close()
+    if parent.poll(900):
+        data = json.loads(parent.recv_bytes().decode())
+    else:
+        data = {"error": "regression replays timed out"}
+    p.kill()
+    p.join()
+    if "error" in data:
+        return [], data["error"]
+    return data["results"], None
+
+
 # ----------------------------------------------------------------- the check
 def run_check(pid, tier, seed, nruns=None, workers=None):
     t0 = time.time()
@@ -396,11 +465,23 @@ def run_check(pid, tier, seed, nruns=None, workers=None):
     lines = []
     n_viol = 0
     n_known = 0
+    regress, rerr = run_regressions(pid)
+    merged["regress"] = regress
+    for r in regress:
+        if r["violation"] is not None:
+            n_viol += 1
+            lines.append(
+                f"violation kind={r['violation']['kind']} (pinned history of a repaired "
+                f"defect reproduces) detail={engine.jdump(r['violation'].get('detail'))[:400]}"
+            )
+            lines.append(f"VIOLATION property={pid} replay={r['path']}")
     by_kind = collections.OrderedDict()
     for v in merged["violations"]:
         by_kind.setdefault(v["violation"]["kind"], v)
     reported = []
     harness_errors = list(merged["errors"])
+    if rerr:
+        harness_errors.append(rerr)
     if mismatch:
         harness_errors.append(f"non-deterministic digests for run indices {mismatch}")
     if merged["timed_out"]:
@@ -504,6 +585,10 @@ def write_evidence(prop, tier, seed, merged, wall, n_viol, n_known, reported, ha
             ],
         },
         "planned_runs": merged["planned"],
+        "pinned_regression_histories_replayed": len(merged.get("regress", [])),
+        "pinned_regression_histories_reproducing": sum(
+            1 for r in merged.get("regress", []) if r["violation"] is not None
+        ),
         "completed": (not merged["timed_out"]) and not harness_errors,
         "known_findings_reported": n_known,
         "violations_reported": reported[:6],
